@@ -380,7 +380,13 @@ pub fn parent_main(check: &dyn TCheck, args: &Args) -> ! {
                    "detail": v["detail"], "outcome": v["outcome"]}),
         );
         println!("VIOLATION property={id} replay={}", path.display());
-        eprintln!("  {sig}  (trace {} -> {} decisions, minimised={})", v["original_trace_len"], v["trace"].as_array().map(|a| a.len()).unwrap_or(0), v["minimised"]);
+        eprintln!(
+            "  {sig}  (decision trace {} -> {} entries of which {} forced, minimised={})",
+            v["original_trace_len"],
+            v["trace"].as_array().map(|a| a.len()).unwrap_or(0),
+            v["trace"].as_array().map(|a| a.iter().filter(|x| x.as_u64() != Some(65535)).count()).unwrap_or(0),
+            v["minimised"]
+        );
     }
     if !violations.is_empty() && seen.is_empty() {
         // violations beyond the per-worker reporting cap: still a failure
